@@ -145,14 +145,120 @@ func runC05(c *runCtx) {
 		}
 	}
 	c05Entity(c)
+	c05Directed(c)
+	c05Rebuild(c)
 	c05CLI(c)
+}
+
+// c05Directed: the interleaving in which a replica fast-forwards onto a merge commit made by
+// another replica, then edits: its clock must already dominate the merge commit.
+func c05Directed(c *runCtx) {
+	for rep := 0; rep < c.pick(3, 20); rep++ {
+		r := c.rng.fork()
+		s := newReplicaSys(c, r, 2)
+		A, B := s.reps[0], s.reps[1]
+		s.newBug(A)
+		s.push(A)
+		s.pull(B, false)
+		for k := 0; k < r.rangeInt(1, 3); k++ {
+			s.edit(A, 2)
+		}
+		for k := 0; k < r.rangeInt(1, 3); k++ {
+			s.edit(B, 2)
+		}
+		s.push(A)
+		s.pull(B, false) // B writes the merge commit
+		s.push(B)
+		s.pull(A, false) // A fast-forwards onto it
+		for _, rp := range s.reps {
+			ids, _ := bug.ListLocalIds(rp.repo)
+			var mx uint64
+			for _, id := range ids {
+				h, _ := rp.repo.ResolveRef("refs/bugs/" + string(id))
+				for _, cm := range dumpCommits(rp.repo, h) {
+					if cm.Pack != nil && cm.Pack.Edit > mx {
+						mx = cm.Pack.Edit
+					}
+				}
+			}
+			if ce := clockTime(rp.repo, "bugs-edit"); ce < mx {
+				c.violation(-1, "C05/clock-below-stored", fmt.Sprintf("after %v the edit clock of %s is %d but a commit it has merged has edit time %d", s.log, rp.name, ce, mx), nil)
+			}
+		}
+		s.edit(A, 1)
+		for _, id := range s.bugIds {
+			if _, err := safeRead(A.repo, id); err != nil {
+				c.violation(-1, "C05/cannot-read-own-write", fmt.Sprintf("after %v replica A cannot read back what it wrote: %v", s.log, err), nil)
+			}
+		}
+		c.count("directed-merge-then-edit")
+		s.close()
+		cleanupScratch()
+	}
+}
+
+// c05Rebuild: any subset of the clock files is lost; reopening with the clock loaders must
+// bring every clock back to at least the stored maximum, and the next write must be readable.
+func c05Rebuild(c *runCtx) {
+	for _, lost := range [][]string{{"bugs-edit"}, {"bugs-create"}, {"bugs-edit", "bugs-create"}} {
+		repo, dir := newGoGit("rebuild", false)
+		authors := mkAuthors(repo, 1)
+		g := newOpGen(c.rng.fork(), authors)
+		var last *bug.Bug
+		for i := 0; i < 4; i++ {
+			b := bug.NewBug()
+			b.Append(g.create())
+			if err := b.Commit(repo); err != nil {
+				panic(err)
+			}
+			last = b
+		}
+		var maxEdit, maxCreate uint64
+		ids, _ := bug.ListLocalIds(repo)
+		for _, id := range ids {
+			h, _ := repo.ResolveRef("refs/bugs/" + string(id))
+			for _, cm := range dumpCommits(repo, h) {
+				if cm.Pack.Edit > maxEdit {
+					maxEdit = cm.Pack.Edit
+				}
+				if cm.Pack.Create > maxCreate {
+					maxCreate = cm.Pack.Create
+				}
+			}
+		}
+		repo.Close()
+		for _, name := range lost {
+			os.Remove(filepath.Join(dir, ".git", gbNamespace, "clocks", name))
+		}
+		rr, err := repository.OpenGoGitRepo(dir, gbNamespace, []repository.ClockLoader{bug.ClockLoader})
+		if err != nil {
+			c.violation(-1, "C05/reopen-failed", fmt.Sprintf("reopening after losing %v failed: %v", lost, err), nil)
+			continue
+		}
+		ce, cc := clockTime(rr, "bugs-edit"), clockTime(rr, "bugs-create")
+		if ce < maxEdit || cc < maxCreate {
+			c.violation(-1, "C05/clocks-not-rebuilt", fmt.Sprintf("after losing %v and reopening with the clock loaders the clocks are edit=%d create=%d, below the stored maxima %d/%d", lost, ce, cc, maxEdit, maxCreate), nil)
+		}
+		b, err := bug.Read(rr, last.Id())
+		if err == nil {
+			op, _, _ := newOpGenWith(c.rng.fork(), authors, b).next()
+			b.Append(op)
+			if err := b.Commit(rr); err == nil {
+				if _, err := bug.Read(rr, last.Id()); err != nil {
+					c.violation(-1, "C05/cannot-read-own-write", fmt.Sprintf("after losing %v: the next edit cannot be read back: %v", lost, err), nil)
+				}
+			}
+		}
+		c.count("rebuild-subsets")
+		rr.Close()
+	}
 }
 
 // c05Entity: at the entity level, every written commit's edit time exceeds every edit time
 // the repository has written, read or merged before (oracle only; the merge/commit model is
 // compared in C02).
 func c05Entity(c *runCtx) {
-	N := c.pick(6, 60)
+	N := c.pick(12, 80)
 	for i := 0; i < N; i++ {
 		r := c.rng.fork()
 		s := newReplicaSys(c, r, 2)
